@@ -5,7 +5,7 @@ import kcorr
 
 ID = 'C07'
 LEVEL = 'proof'
-STATIC_DIRS = ['C01', 'C05']
+STATIC_DIRS = ['C01', 'C05', 'C04']
 TRANSLATE = {'modules': [
     {'py': 'src/scippneutron/_utils/__init__.py', 'coq': 'GenUtils',
      'functions': ['elem_unit', 'elem_dtype', 'float_dtype', 'as_float_type']},
@@ -18,7 +18,32 @@ TRANSLATE = {'modules': [
     {'py': 'src/scippneutron/tof/chopper_cascade.py', 'coq': 'GenCascade',
      'functions': ['wavelength_to_inverse_velocity', 'propagate_times']},
 ]}
-RUN_FILES = [('C01/Tie.v', 'TieC01.v'), ('C05/Tie.v', 'TieC05.v'), 'Tie.v', 'Properties.v', 'Corr.v']
+RUN_FILES = [('C01/Tie.v', 'TieC01.v'), ('C05/Tie.v', 'TieC05.v'), ('C04/Tie.v', 'TieC04.v'), 'Tie.v', 'TieBeamline.v', 'PropertiesBeamline.v',
+             'Properties.v', 'Corr.v']
+GEN_FILES = ['GenBeamline.v']
+
+
+def pre_build(ctx):
+    """beamline.py is translated with C04's spec (its own primitive table) into a scratch directory; only
+    GenBeamline.v is taken over (it needs elem_unit/elem_dtype of this run's GenUtils)"""
+    import json, os, shutil, sys
+    import vlib
+    sys.path.insert(0, os.path.join(vlib.VERIF, 'props'))
+    import C04
+    tmp = os.path.join(ctx.build, 'c04_translate')
+    os.makedirs(tmp, exist_ok=True)
+    spec = dict(C04.TRANSLATE)
+    spec['repo'] = vlib.REPO
+    sp = os.path.join(tmp, 'spec.json')
+    json.dump(spec, open(sp, 'w'))
+    rc, out = vlib.sh([vlib.PY, os.path.join(vlib.VERIF, 'tools', 'py2coq.py'), sp, tmp], timeout=120)
+    rep = json.load(open(os.path.join(tmp, 'translate_report.json')))
+    bad = {q: r for q, r in rep['GenBeamline']['functions'].items() if r != 'ok'}
+    if bad:
+        raise RuntimeError('beamline.py: untranslated ' + json.dumps(bad))
+    shutil.copy(os.path.join(tmp, 'GenBeamline.v'), os.path.join(ctx.build, 'GenBeamline.v'))
+    ctx.translate_report['GenBeamline'] = rep['GenBeamline']
+
 TRUSTED = [
     'tools/py2coq.py (syntactic translator, fail-closed)',
     'coq/Sem/Val.v: model of scipp unit algebra and dtype promotion (the promotion table itself is what the grid run validates)',
